@@ -30,6 +30,7 @@ META['explanation'] += ' ' + 'R1: both extracted layouts against sa/specs/tls.js
 META['explanation'] += ' ' + 'R9: SCSV fold / unfold tabulated, with and without a renegotiation_info extension (shared with C05.R3).'
 
 META['explanation'] += ' ' + 'R10: what the composer hands to a primitive is the stored attribute - no constant, no clamp (shared with C01.R2).'
+META['explanation'] += ' ' + 'R11: no case folding in the TLS parse functions and the helpers they call. R12: the code point wrappers tabulated over every code of the width (shared with C10.R6). R13: no quiet return from a parse function while a positive number of octets is unread.'
 MODULES = {'cryptoparser.tls.record', 'cryptoparser.tls.subprotocol', 'cryptoparser.tls.extension', 'cryptoparser.tls.version',
            'cryptoparser.tls.grease', 'cryptoparser.common.x509'}
 HERE = os.path.dirname(os.path.dirname(os.path.abspath(__file__)))
